@@ -26,6 +26,8 @@ type SimPipe struct {
 
 	buf             []byte
 	writers         int
+	pendingOpens    int // writers that opened while no reader had the FIFO open (in the kernel they wait in open(2) for the reader)
+	gen             int // incremented when the reader side is opened again after a close
 	everOpened      bool
 	readerOpen      bool
 	closed          bool // reader side closed
@@ -76,8 +78,12 @@ func (p *SimPipe) wakeWriter() {
 
 // File is what the rewritten ingester sees instead of *os.File.
 type File struct {
-	p *SimPipe
+	p   *SimPipe
+	gen int
 }
+
+// stale reports whether this handle belongs to an earlier open of the FIFO (closed since).
+func (f *File) stale() bool { return f.gen != f.p.gen }
 
 // OpenFile replaces os.OpenFile / os.Open in the named-pipe ingester.
 //
@@ -98,6 +104,12 @@ func OpenFile(name string, flag int, perm os.FileMode) (*File, error) {
 		s.park(t, "pipe.open", "point")
 	}
 	p.Opens++
+	if p.readerOpen && p.closed {
+		// the reader side is opened again after it was closed: a new open file description
+		p.gen++
+		p.closed, p.readerOpen, p.blocking, p.readDeadline = false, false, false, time.Time{}
+		s.Count("pipe.reopened")
+	}
 	if flag&os.O_RDWR != 0 {
 		// opening a FIFO read-write never blocks, and the opener holds a write reference of
 		// its own: end-of-stream is never signalled while it keeps the file open
@@ -106,8 +118,8 @@ func OpenFile(name string, flag int, perm os.FileMode) (*File, error) {
 		p.selfWriter = true
 		s.Count("pipe.opened_rdwr")
 	}
-	for !p.everOpened && p.openErr == nil {
-		// a FIFO opened O_RDONLY blocks until a writer opens it
+	for p.writers == 0 && p.pendingOpens == 0 && p.openErr == nil {
+		// a FIFO opened O_RDONLY blocks until a writer has it open
 		sig := make(chan struct{})
 		p.sig = sig
 		p.BlockedOpen = true
@@ -126,8 +138,9 @@ func OpenFile(name string, flag int, perm os.FileMode) (*File, error) {
 		return nil, &fs.PathError{Op: "open", Path: name, Err: p.openErr}
 	}
 	p.readerOpen = true
+	p.pendingOpens = 0
 	s.Logf("pipe.opened %s", p.base)
-	return &File{p: p}, nil
+	return &File{p: p, gen: p.gen}, nil
 }
 
 func Open(name string) (*File, error) { return OpenFile(name, os.O_RDONLY, 0) }
@@ -138,6 +151,9 @@ func (f *File) Name() string { return f.p.Name }
 // runtime poller. From then on Close can no longer interrupt a Read that is blocked in the
 // kernel (the read keeps its reference; close(2) happens when it returns).
 func (f *File) Fd() uintptr {
+	if f.stale() {
+		return ^uintptr(0)
+	}
 	f.p.blocking = true
 	f.p.sim.Count("pipe.fd_blocking_mode")
 	return 3
@@ -146,6 +162,9 @@ func (f *File) Fd() uintptr {
 // SetReadDeadline models os.File.SetReadDeadline on a pollable FIFO: a Read that is (or
 // becomes) blocked returns os.ErrDeadlineExceeded when the (simulated) clock reaches t.
 func (f *File) SetReadDeadline(t time.Time) error {
+	if f.stale() || f.p.closed {
+		return &fs.PathError{Op: "set", Path: f.p.Name, Err: os.ErrClosed}
+	}
 	if f.p.blocking {
 		return &fs.PathError{Op: "set", Path: f.p.Name, Err: os.ErrNoDeadline}
 	}
@@ -165,11 +184,11 @@ func (f *File) Read(b []byte) (int, error) {
 		s.park(t, "pipe.read", "point")
 	}
 	p.ReadCalls++
-	if p.closed {
+	if p.closed || f.stale() {
 		p.ReadsAfterClose++
 	}
 	for {
-		if p.closed {
+		if p.closed || f.stale() {
 			return 0, &fs.PathError{Op: "read", Path: p.Name, Err: os.ErrClosed}
 		}
 		if p.readErr != nil {
@@ -247,7 +266,7 @@ func (f *File) Read(b []byte) (int, error) {
 //go:norace
 func (f *File) Close() error {
 	p := f.p
-	if p.closed {
+	if p.closed || f.stale() {
 		return &fs.PathError{Op: "close", Path: p.Name, Err: os.ErrClosed}
 	}
 	p.closed = true
@@ -273,6 +292,9 @@ type PipeWriter struct {
 func (p *SimPipe) OpenWriter() *PipeWriter {
 	p.writers++
 	p.everOpened = true
+	if !p.readerOpen || p.closed {
+		p.pendingOpens++
+	}
 	p.sim.Logf("pipe.writer_open %s", p.base)
 	p.wakeReader()
 	return &PipeWriter{p: p}
@@ -340,6 +362,7 @@ func (p *SimPipe) InjectOpenError(err error) {
 }
 
 func (p *SimPipe) Buffered() int      { return len(p.buf) }
+func (p *SimPipe) Writers() int       { return p.writers }
 func (p *SimPipe) ReaderClosed() bool { return p.closed }
 func (p *SimPipe) ReaderOpen() bool   { return p.readerOpen }
 
@@ -369,6 +392,8 @@ type SimDisk struct {
 	Calls    int
 	OnWrite  func(rec *WriteRec) // online monitor
 	Closed   bool
+	StallAt  int           // 1-based index of the write call that stalls (0: never): a slow or hung disk
+	StallFor time.Duration // simulated time the stalled write takes
 }
 
 func (s *Sim) NewDisk(path string) *SimDisk {
@@ -390,6 +415,11 @@ func (d *SimDisk) Write(b []byte) (int, error) {
 		s.park(t, "disk.write", "point")
 	}
 	d.Calls++
+	if !pt && d.StallAt > 0 && d.Calls == d.StallAt && d.StallFor > 0 {
+		s.Count("disk.stall")
+		s.Logf("disk.write #%d by %s stalls for %v", d.Calls, name, d.StallFor)
+		Sleep(d.StallFor, "disk.stall")
+	}
 	if d.FailAt > 0 && (d.Calls == d.FailAt || (d.FailAll && d.Calls >= d.FailAt)) {
 		err := d.FailErr
 		if err == nil {
